@@ -383,6 +383,16 @@ def proof_stage(ctx, module, theorems, extra_targets=()):
         else:
             ctx.broken.append({'name': 'theorem:' + t, 'summary': 'theorem %s: %s' % (t, r)})
     ctx.cov['discharged'] = ok
+    if ctx.tier == 'thorough':
+        # independent re-check of the compiled closure and its axiom list
+        rc, out = _run(['timeout', '1500', 'coqchk', '-silent', '-o', '-Q', 'theories', 'PV', 'PV.Properties.%s' % module], cwd=COQ, timeout=1600)
+        m = re.search(r'CONTEXT SUMMARY(.*)', out, flags=re.S)
+        summary = ' '.join((m.group(1) if m else out[-600:]).split())
+        ctx.cov['coqchk'] = {'cmd': 'coqchk -silent -o -Q theories PV PV.Properties.%s' % module, 'exit': rc, 'summary': summary[:1200]}
+        ctx.cov['checker_cmd'] += ' ; coqchk -silent -o -Q theories PV PV.Properties.%s' % module
+        if rc != 0 or 'Axioms: <none>' not in summary.replace('* ', ''):
+            if rc != 0 or not re.search(r'Axioms:\s*<none>', summary):
+                ctx.broken.append({'name': 'coqchk', 'summary': 'coqchk does not accept the closure of %s or reports axioms: %s' % (module, summary[:400])})
     return br
 
 
